@@ -1,0 +1,162 @@
+//go:build verif
+
+// Contracts for transformer.TransformModuleFilesToModel (properties C07, C12, C16, C08), checked by govc.
+// Comments and import anchors only; compiled only with -tags verif.
+package transformer
+
+import (
+	"github.com/hashicorp/go-multierror"
+	openfgav1 "github.com/openfga/api/proto/openfga/v1"
+)
+
+var _ *openfgav1.TypeDefinition
+
+var _ *multierror.Error
+
+// ---------------------------------------------------------------------------------------------------------------
+// PostParse: the (trusted) contract of the parser. Which text yields which shape is not part of the contract; the
+// two facts about the text that the merger's specification needs are named by uninterpreted functions.
+
+//@ opaque parseFails(data string) bool
+//@ opaque isModuleText(data string) bool
+
+//@ func TransformModularDSLToProto
+//@   props C07
+//@   trusted
+//@   ensures fails_iff: (err != nil) <==> parseFails(data)
+//@   ensures error_shape: err != nil ==> is(err, *multierror.Error) && dyn(err, *multierror.Error) != nil && fresh(dyn(err, *multierror.Error))
+//@                          && len(dyn(err, *multierror.Error).Errors) >= 1 && fresh(dyn(err, *multierror.Error).Errors) && result0 == nil && result1 == nil
+//@   ensures error_entries: err != nil ==> (forall i int :: 0 <= i && i < len(dyn(err, *multierror.Error).Errors) ==> is(dyn(err, *multierror.Error).Errors[i], *OpenFgaDslSyntaxError))
+//@   ensures model_fresh: err == nil ==> result0 != nil && fresh(result0) && fresh(result0.TypeDefinitions) && result0.Conditions != nil && fresh(result0.Conditions)
+//@   ensures types_fresh: err == nil ==> (forall i int :: 0 <= i && i < len(result0.TypeDefinitions) ==> result0.TypeDefinitions[i] != nil && fresh(result0.TypeDefinitions[i]))
+//@   ensures conds_fresh: err == nil ==> (forall k string :: has(result0.Conditions, k) ==> result0.Conditions[k] != nil && fresh(result0.Conditions[k]))
+//@   ensures module_shape: err == nil && isModuleText(data) ==> result1 != nil && fresh(result1)
+//@                          && (forall i int :: 0 <= i && i < len(result0.TypeDefinitions) ==> result0.TypeDefinitions[i].Metadata != nil)
+//@                          && (forall k string :: has(result0.Conditions, k) ==> result0.Conditions[k].Metadata != nil)
+//@   ensures model_shape: err == nil && !isModuleText(data) ==> result1 == nil
+//@                          && (forall i int :: 0 <= i && i < len(result0.TypeDefinitions) && len(result0.TypeDefinitions[i].Relations) == 0 ==> result0.TypeDefinitions[i].Metadata == nil)
+//@                          && (forall k string :: has(result0.Conditions, k) ==> result0.Conditions[k].Metadata == nil)
+//@   -- "all objects reachable from the model are fresh" (tdOK adds: they are allocated, and relation metadata entries are non-nil)
+//@   ensures types_ok: err == nil ==> (forall i int :: 0 <= i && i < len(result0.TypeDefinitions) ==> tdOK(result0.TypeDefinitions[i])
+//@                          && (result0.TypeDefinitions[i].Metadata == nil || fresh(result0.TypeDefinitions[i].Metadata))
+//@                          && fresh(result0.TypeDefinitions[i].Relations)
+//@                          && (result0.TypeDefinitions[i].GetMetadata().GetRelations() == nil || fresh(result0.TypeDefinitions[i].GetMetadata().GetRelations())))
+//@   ensures conds_ok: err == nil ==> (forall k string :: has(result0.Conditions, k) ==> allocated(result0.Conditions[k]) && (result0.Conditions[k].Metadata == nil || (allocated(result0.Conditions[k].Metadata) && fresh(result0.Conditions[k].Metadata))))
+//@   -- frame: the parser takes a string; no object that existed before the call is modified
+//@   ensures frame_modules:  forall s []ModuleFile, i int :: isold(s) ==> s[i] == old(s[i])
+//@   ensures frame_modulefile: forall m *ModuleFile :: isold(m) ==> m.Name == old(m.Name) && m.Contents == old(m.Contents)
+//@   ensures frame_tdslice:  forall s []*openfgav1.TypeDefinition, i int :: isold(s) ==> s[i] == old(s[i])
+//@   ensures frame_strslice: forall s []string, i int :: isold(s) ==> s[i] == old(s[i])
+//@   ensures frame_errslice: forall s []error, i int :: isold(s) ==> s[i] == old(s[i])
+//@   ensures frame_multierr: forall e *multierror.Error :: isold(e) ==> e.Errors == old(e.Errors)
+//@   ensures frame_model:    forall m *openfgav1.AuthorizationModel :: isold(m) ==> m.SchemaVersion == old(m.SchemaVersion) && m.TypeDefinitions == old(m.TypeDefinitions) && m.Conditions == old(m.Conditions)
+//@   ensures frame_typedef:  forall t *openfgav1.TypeDefinition :: isold(t) ==> t.Type == old(t.Type) && t.Relations == old(t.Relations) && t.Metadata == old(t.Metadata)
+//@   ensures frame_metadata: forall m *openfgav1.Metadata :: isold(m) ==> m.Relations == old(m.Relations) && m.Module == old(m.Module) && m.SourceInfo == old(m.SourceInfo)
+//@   ensures frame_relmeta:  forall r *openfgav1.RelationMetadata :: isold(r) ==> r.Module == old(r.Module) && r.SourceInfo == old(r.SourceInfo)
+//@   ensures frame_cond:     forall c *openfgav1.Condition :: isold(c) ==> c.Name == old(c.Name) && c.Metadata == old(c.Metadata)
+//@   ensures frame_condmeta: forall m *openfgav1.ConditionMetadata :: isold(m) ==> m.Module == old(m.Module) && m.SourceInfo == old(m.SourceInfo)
+//@   ensures frame_srcinfo:  forall x *openfgav1.SourceInfo :: isold(x) ==> x.File == old(x.File)
+//@   ensures frame_mergeerr: forall x *ModuleTransformationSingleError :: isold(x) ==> x.Msg == old(x.Msg) && x.File == old(x.File)
+//@   ensures frame_map_cond: forall m map[string]*openfgav1.Condition, k string :: isold(m) ==> has(m, k) == old(has(m, k)) && m[k] == old(m[k])
+//@   ensures frame_map_rel:  forall m map[string]*openfgav1.Userset, k string :: isold(m) ==> has(m, k) == old(has(m, k)) && m[k] == old(m[k])
+//@   ensures frame_map_rm:   forall m map[string]*openfgav1.RelationMetadata, k string :: isold(m) ==> has(m, k) == old(has(m, k)) && m[k] == old(m[k])
+//@   ensures frame_map_ext:  forall m map[string][]*openfgav1.TypeDefinition, k string :: isold(m) ==> has(m, k) == old(has(m, k)) && m[k] == old(m[k])
+//@   ensures frame_map_lines: forall m map[string][]string, k string :: isold(m) ==> has(m, k) == old(has(m, k)) && m[k] == old(m[k])
+
+// ---------------------------------------------------------------------------------------------------------------
+// Invariant vocabulary of the merger (all predicates are evaluated in the current heap).
+
+// tdOK: a type definition as the parser makes it: allocated together with its metadata and relation-metadata map, whose
+// entries are non-nil.
+//@ spec tdOK(t *openfgav1.TypeDefinition) bool =
+//@      allocated(t) && t.Relations != nil && allocated(t.Relations) && (t.Metadata == nil || allocated(t.Metadata))
+//@   && (t.GetMetadata().GetRelations() == nil || allocated(t.GetMetadata().GetRelations()))
+//@   && (forall k string :: has(t.GetMetadata().GetRelations(), k) ==> t.GetMetadata().GetRelations()[k] != nil && allocated(t.GetMetadata().GetRelations()[k]))
+// rawOK: the base types collected so far are parser-made objects with metadata (a type without metadata is never kept).
+//@ spec rawOK(raw []*openfgav1.TypeDefinition) bool =
+//@   forall i int :: 0 <= i && i < len(raw) ==> allocated(raw[i]) && raw[i].Metadata != nil && allocated(raw[i].Metadata)
+// extOK: so are the extensions.
+//@ spec extOK(ext map[string][]*openfgav1.TypeDefinition) bool =
+//@   forall f string, i int :: has(ext, f) && 0 <= i && i < len(ext[f]) ==> tdOK(ext[f][i])
+// extSep: the lists of extensions of different files, and the list of base types, live in different backing arrays.
+//@ spec extSep(ext map[string][]*openfgav1.TypeDefinition, raw []*openfgav1.TypeDefinition) bool =
+//@      (forall f string :: has(ext, f) ==> allocated(ext[f]) && arr(ext[f]) != arr(raw))
+//@   && (forall f string, g string :: has(ext, f) && has(ext, g) && f != g ==> arr(ext[f]) != arr(ext[g]))
+
+// Error-list clauses. "named": every merge error (ModuleTransformationSingleError) carries the name of one of the input
+// files OR NO NAME (what the code achieves; known defect F-07b: "file is not a module" has no file); "named_all" is the
+// statement of C07/C16: it carries the name of one of the input files. Both are written out in the clauses (they
+// refer to the entry value of `modules`, which a spec function cannot).
+// Every entry is a merge error (fails: syntax errors of a file are spliced in as they are and carry no file at all).
+//@ spec errsAllMerge(errs []error) bool =
+//@   forall i int :: 0 <= i && i < len(errs) ==> is(errs[i], *ModuleTransformationSingleError)
+
+//@ func TransformModuleFilesToModel
+//@   props C07 C12 C16 C08
+//@   ensures error_no_model: err != nil ==> result0 == nil
+//@   ensures error_shape: err != nil ==> is(err, *ModuleValidationMultipleError) && len(dyn(err, *ModuleValidationMultipleError).Errors) >= 1
+//@   ensures parse_failure_reported: (exists j int :: 0 <= j && j < len(modules) && parseFails(old(modules[j].Contents))) ==> err != nil
+//@   ensures merge_errors_name_file_or_none: err != nil ==> (forall i int :: 0 <= i && i < len(dyn(err, *ModuleValidationMultipleError).Errors) && is(dyn(err, *ModuleValidationMultipleError).Errors[i], *ModuleTransformationSingleError) ==> allocated(dyn(dyn(err, *ModuleValidationMultipleError).Errors[i], *ModuleTransformationSingleError)) && (dyn(dyn(err, *ModuleValidationMultipleError).Errors[i], *ModuleTransformationSingleError).File == "" || (exists j int :: 0 <= j && j < len(modules) && old(modules[j].Name) == dyn(dyn(err, *ModuleValidationMultipleError).Errors[i], *ModuleTransformationSingleError).File)))
+//@   ensures merge_errors_name_file: err != nil ==> (forall i int :: 0 <= i && i < len(dyn(err, *ModuleValidationMultipleError).Errors) && is(dyn(err, *ModuleValidationMultipleError).Errors[i], *ModuleTransformationSingleError) ==> allocated(dyn(dyn(err, *ModuleValidationMultipleError).Errors[i], *ModuleTransformationSingleError)) && (exists j int :: 0 <= j && j < len(modules) && old(modules[j].Name) == dyn(dyn(err, *ModuleValidationMultipleError).Errors[i], *ModuleTransformationSingleError).File))
+//@   ensures all_errors_are_merge_errors: err != nil ==> errsAllMerge(dyn(err, *ModuleValidationMultipleError).Errors)
+//@   loop 1 invariant errs: transformErrors != nil && fresh(transformErrors) && len(transformErrors.Errors) >= 0 && (arr(transformErrors.Errors) == 0 || allocated(transformErrors.Errors))
+//@   loop 1 invariant named: (forall i int :: 0 <= i && i < len(transformErrors.Errors) && is(transformErrors.Errors[i], *ModuleTransformationSingleError) ==> allocated(dyn(transformErrors.Errors[i], *ModuleTransformationSingleError)) && (dyn(transformErrors.Errors[i], *ModuleTransformationSingleError).File == "" || (exists j int :: 0 <= j && j < len(modules) && old(modules[j].Name) == dyn(transformErrors.Errors[i], *ModuleTransformationSingleError).File)))
+//@   loop 1 invariant named_all: (forall i int :: 0 <= i && i < len(transformErrors.Errors) && is(transformErrors.Errors[i], *ModuleTransformationSingleError) ==> allocated(dyn(transformErrors.Errors[i], *ModuleTransformationSingleError)) && (exists j int :: 0 <= j && j < len(modules) && old(modules[j].Name) == dyn(transformErrors.Errors[i], *ModuleTransformationSingleError).File))
+//@   loop 1 invariant all_merge: errsAllMerge(transformErrors.Errors)
+//@   loop 1 invariant failed_reported: (exists j int :: 0 <= j && j < $i && parseFails(old(modules[j].Contents))) ==> len(transformErrors.Errors) >= 1
+//@   loop 1 invariant mods: forall j int :: 0 <= j && j < len(modules) ==> modules[j] == old(modules[j])
+//@   loop 1 invariant raw_ok: rawOK(rawTypeDefs)
+//@   loop 1 invariant sep: extSep(extendedTypeDefs, rawTypeDefs)
+//@   loop 1 invariant sep_str: arr(types) != arr(extendingFiles)
+//@   loop 1 invariant ef_named: forall i int :: 0 <= i && i < len(extendingFiles) ==> (exists j int :: 0 <= j && j < len(modules) && old(modules[j].Name) == extendingFiles[i])
+//@   loop 1.1 invariant errs: transformErrors != nil && fresh(transformErrors) && len(transformErrors.Errors) >= 0 && (arr(transformErrors.Errors) == 0 || allocated(transformErrors.Errors)) && transformErrors == pre(transformErrors)
+//@   loop 1.1 invariant grow: len(transformErrors.Errors) >= pre(len(transformErrors.Errors))
+//@   loop 1.1 invariant cur: let k = $i_1 :: 0 <= k && k < len(modules) && module.Name == old(modules[k].Name)
+//@   loop 1.1 invariant named: (forall i int :: 0 <= i && i < len(transformErrors.Errors) && is(transformErrors.Errors[i], *ModuleTransformationSingleError) ==> allocated(dyn(transformErrors.Errors[i], *ModuleTransformationSingleError)) && (dyn(transformErrors.Errors[i], *ModuleTransformationSingleError).File == "" || (exists j int :: 0 <= j && j < len(modules) && old(modules[j].Name) == dyn(transformErrors.Errors[i], *ModuleTransformationSingleError).File)))
+//@   loop 1.1 invariant named_all: (forall i int :: 0 <= i && i < len(transformErrors.Errors) && is(transformErrors.Errors[i], *ModuleTransformationSingleError) ==> allocated(dyn(transformErrors.Errors[i], *ModuleTransformationSingleError)) && (exists j int :: 0 <= j && j < len(modules) && old(modules[j].Name) == dyn(transformErrors.Errors[i], *ModuleTransformationSingleError).File))
+//@   loop 1.1 invariant all_merge: errsAllMerge(transformErrors.Errors)
+//@   loop 1.1 invariant raw_ok: rawOK(rawTypeDefs)
+//@   loop 1.1 invariant sep: extSep(extendedTypeDefs, rawTypeDefs)
+//@   loop 1.1 invariant sep_mdl: arr(mdl.GetTypeDefinitions()) != arr(rawTypeDefs) && (forall f string :: has(extendedTypeDefs, f) ==> arr(extendedTypeDefs[f]) != arr(mdl.GetTypeDefinitions()))
+//@   loop 1.1 invariant sep_str: arr(types) != arr(extendingFiles)
+//@   loop 1.1 invariant ef_named: forall i int :: 0 <= i && i < len(extendingFiles) ==> (exists j int :: 0 <= j && j < len(modules) && old(modules[j].Name) == extendingFiles[i])
+//@   loop 1.2 invariant sep_str: arr(conditionNames) != arr(extendingFiles) && arr(conditionNames) != arr(types)
+//@   loop 1.2 invariant ef_named: forall i int :: 0 <= i && i < len(extendingFiles) ==> (exists j int :: 0 <= j && j < len(modules) && old(modules[j].Name) == extendingFiles[i])
+//@   loop 1.3 invariant errs: transformErrors != nil && fresh(transformErrors) && len(transformErrors.Errors) >= 0 && (arr(transformErrors.Errors) == 0 || allocated(transformErrors.Errors)) && transformErrors == pre(transformErrors)
+//@   loop 1.3 invariant grow: len(transformErrors.Errors) >= pre(len(transformErrors.Errors))
+//@   loop 1.3 invariant cur: let k = $i_1 :: 0 <= k && k < len(modules) && module.Name == old(modules[k].Name)
+//@   loop 1.3 invariant named: (forall i int :: 0 <= i && i < len(transformErrors.Errors) && is(transformErrors.Errors[i], *ModuleTransformationSingleError) ==> allocated(dyn(transformErrors.Errors[i], *ModuleTransformationSingleError)) && (dyn(transformErrors.Errors[i], *ModuleTransformationSingleError).File == "" || (exists j int :: 0 <= j && j < len(modules) && old(modules[j].Name) == dyn(transformErrors.Errors[i], *ModuleTransformationSingleError).File)))
+//@   loop 1.3 invariant named_all: (forall i int :: 0 <= i && i < len(transformErrors.Errors) && is(transformErrors.Errors[i], *ModuleTransformationSingleError) ==> allocated(dyn(transformErrors.Errors[i], *ModuleTransformationSingleError)) && (exists j int :: 0 <= j && j < len(modules) && old(modules[j].Name) == dyn(transformErrors.Errors[i], *ModuleTransformationSingleError).File))
+//@   loop 1.3 invariant all_merge: errsAllMerge(transformErrors.Errors)
+//@   loop 2 invariant errs: transformErrors != nil && fresh(transformErrors) && len(transformErrors.Errors) >= 0 && (arr(transformErrors.Errors) == 0 || allocated(transformErrors.Errors)) && transformErrors == pre(transformErrors)
+//@   loop 2 invariant grow: len(transformErrors.Errors) >= pre(len(transformErrors.Errors))
+//@   loop 2 invariant named: (forall i int :: 0 <= i && i < len(transformErrors.Errors) && is(transformErrors.Errors[i], *ModuleTransformationSingleError) ==> allocated(dyn(transformErrors.Errors[i], *ModuleTransformationSingleError)) && (dyn(transformErrors.Errors[i], *ModuleTransformationSingleError).File == "" || (exists j int :: 0 <= j && j < len(modules) && old(modules[j].Name) == dyn(transformErrors.Errors[i], *ModuleTransformationSingleError).File)))
+//@   loop 2 invariant named_all: (forall i int :: 0 <= i && i < len(transformErrors.Errors) && is(transformErrors.Errors[i], *ModuleTransformationSingleError) ==> allocated(dyn(transformErrors.Errors[i], *ModuleTransformationSingleError)) && (exists j int :: 0 <= j && j < len(modules) && old(modules[j].Name) == dyn(transformErrors.Errors[i], *ModuleTransformationSingleError).File))
+//@   loop 2 invariant all_merge: errsAllMerge(transformErrors.Errors)
+//@   loop 2 invariant raw_ok: rawOK(rawTypeDefs)
+//@   loop 2 invariant ef_named: forall i int :: 0 <= i && i < len(extendingFiles) ==> (exists j int :: 0 <= j && j < len(modules) && old(modules[j].Name) == extendingFiles[i])
+//@   loop 2.1 invariant errs: transformErrors != nil && fresh(transformErrors) && len(transformErrors.Errors) >= 0 && (arr(transformErrors.Errors) == 0 || allocated(transformErrors.Errors)) && transformErrors == pre(transformErrors)
+//@   loop 2.1 invariant grow: len(transformErrors.Errors) >= pre(len(transformErrors.Errors))
+//@   loop 2.1 invariant file_named: exists j int :: 0 <= j && j < len(modules) && old(modules[j].Name) == filename
+//@   loop 2.1 invariant named: (forall i int :: 0 <= i && i < len(transformErrors.Errors) && is(transformErrors.Errors[i], *ModuleTransformationSingleError) ==> allocated(dyn(transformErrors.Errors[i], *ModuleTransformationSingleError)) && (dyn(transformErrors.Errors[i], *ModuleTransformationSingleError).File == "" || (exists j int :: 0 <= j && j < len(modules) && old(modules[j].Name) == dyn(transformErrors.Errors[i], *ModuleTransformationSingleError).File)))
+//@   loop 2.1 invariant named_all: (forall i int :: 0 <= i && i < len(transformErrors.Errors) && is(transformErrors.Errors[i], *ModuleTransformationSingleError) ==> allocated(dyn(transformErrors.Errors[i], *ModuleTransformationSingleError)) && (exists j int :: 0 <= j && j < len(modules) && old(modules[j].Name) == dyn(transformErrors.Errors[i], *ModuleTransformationSingleError).File))
+//@   loop 2.1 invariant all_merge: errsAllMerge(transformErrors.Errors)
+//@   loop 2.1 invariant raw_ok: rawOK(rawTypeDefs)
+//@   loop 2.1 invariant ef_named: forall i int :: 0 <= i && i < len(extendingFiles) ==> (exists j int :: 0 <= j && j < len(modules) && old(modules[j].Name) == extendingFiles[i])
+//@   loop 2.1.2 invariant sep_str: arr(existingRelationNames) != arr(extendingFiles)
+//@   loop 2.1.2 invariant ef_named: forall i int :: 0 <= i && i < len(extendingFiles) ==> (exists j int :: 0 <= j && j < len(modules) && old(modules[j].Name) == extendingFiles[i])
+//@   loop 2.1.3 invariant sep_str: arr(relationNames) != arr(extendingFiles)
+//@   loop 2.1.3 invariant ef_named: forall i int :: 0 <= i && i < len(extendingFiles) ==> (exists j int :: 0 <= j && j < len(modules) && old(modules[j].Name) == extendingFiles[i])
+//@   loop 2.1.4 invariant errs: transformErrors != nil && fresh(transformErrors) && len(transformErrors.Errors) >= 0 && (arr(transformErrors.Errors) == 0 || allocated(transformErrors.Errors)) && transformErrors == pre(transformErrors)
+//@   loop 2.1.4 invariant grow: len(transformErrors.Errors) >= pre(len(transformErrors.Errors))
+//@   loop 2.1.4 invariant file_named: exists j int :: 0 <= j && j < len(modules) && old(modules[j].Name) == filename
+//@   loop 2.1.4 invariant named: (forall i int :: 0 <= i && i < len(transformErrors.Errors) && is(transformErrors.Errors[i], *ModuleTransformationSingleError) ==> allocated(dyn(transformErrors.Errors[i], *ModuleTransformationSingleError)) && (dyn(transformErrors.Errors[i], *ModuleTransformationSingleError).File == "" || (exists j int :: 0 <= j && j < len(modules) && old(modules[j].Name) == dyn(transformErrors.Errors[i], *ModuleTransformationSingleError).File)))
+//@   loop 2.1.4 invariant named_all: (forall i int :: 0 <= i && i < len(transformErrors.Errors) && is(transformErrors.Errors[i], *ModuleTransformationSingleError) ==> allocated(dyn(transformErrors.Errors[i], *ModuleTransformationSingleError)) && (exists j int :: 0 <= j && j < len(modules) && old(modules[j].Name) == dyn(transformErrors.Errors[i], *ModuleTransformationSingleError).File))
+//@   loop 2.1.4 invariant all_merge: errsAllMerge(transformErrors.Errors)
+//@   -- C12 (order independence of the condition pass): the names visited by loop 1.3 are exactly the keys of the parsed
+//@   -- condition map, in ascending order - a description that mentions no map iteration order (loop 1.2 ranges over the
+//@   -- map in an arbitrary order and only feeds slices.Sort)
+//@   loop 1.2 invariant collected: forall k string :: $visited[k] ==> (exists i int :: 0 <= i && i < len(conditionNames) && conditionNames[i] == k)
+//@   -- dropped (solver: append-with-reallocation case times out): loop 1.2 invariant only_keys: forall i int :: 0 <= i && i < len(conditionNames) ==> has(mdl.GetConditions(), conditionNames[i])
+//@   -- dropped (solver: string order reasoning over the sort model times out at loop entry; preservation is proved): loop 1.3 invariant sorted: forall a int, b int :: 0 <= a && a < b && b < len(conditionNames) ==> !(conditionNames[b] < conditionNames[a])
+//@   loop 1.3 invariant all_keys: forall k string :: has(mdl.GetConditions(), k) ==> (exists i int :: 0 <= i && i < len(conditionNames) && conditionNames[i] == k)
